@@ -189,6 +189,9 @@ type rw struct {
 	shims  map[string]string
 	instr  bool
 	tmp    int
+	// locals that may be shared: address taken, or captured by a closure
+	sharedLocal map[types.Object]bool
+	params      map[types.Object]bool
 }
 
 type ectx int
@@ -221,8 +224,93 @@ func (r *rw) newTmp(prefix string) *ast.Ident {
 	return ast.NewIdent(fmt.Sprintf("__%s%d", prefix, r.tmp))
 }
 
+// findSharedLocals marks local variables (and parameters) whose address is
+// taken or that are referenced from a function literal declared after them:
+// those can be reached by another goroutine, so their accesses are
+// instrumented like struct fields. It also collects parameters, whose
+// dereferences are not instrumented (helpers like appendX(buf *[]byte, ...)
+// would otherwise dominate the cost).
+func (r *rw) findSharedLocals() {
+	r.sharedLocal = map[types.Object]bool{}
+	r.params = map[types.Object]bool{}
+	local := func(id *ast.Ident) types.Object {
+		o := r.info.Uses[id]
+		if o == nil {
+			o = r.info.Defs[id]
+		}
+		v, ok := o.(*types.Var)
+		if !ok || v.IsField() || v.Parent() == r.pkg.Scope() || v.Pkg() != r.pkg {
+			return nil
+		}
+		return v
+	}
+	var addrRoot func(e ast.Expr) *ast.Ident
+	addrRoot = func(e ast.Expr) *ast.Ident {
+		switch e := e.(type) {
+		case *ast.Ident:
+			return e
+		case *ast.ParenExpr:
+			return addrRoot(e.X)
+		case *ast.SelectorExpr:
+			if sel, ok := r.info.Selections[e]; ok && sel.Kind() == types.FieldVal && !sel.Indirect() {
+				if _, isPtr := r.typeOf(e.X).Underlying().(*types.Pointer); !isPtr {
+					return addrRoot(e.X)
+				}
+			}
+		case *ast.IndexExpr:
+			if t := r.typeOf(e.X); t != nil {
+				if _, isArr := t.Underlying().(*types.Array); isArr {
+					return addrRoot(e.X)
+				}
+			}
+		}
+		return nil
+	}
+	fieldParams := func(fl *ast.FieldList) {
+		if fl == nil {
+			return
+		}
+		for _, f := range fl.List {
+			for _, n := range f.Names {
+				if o := r.info.Defs[n]; o != nil {
+					r.params[o] = true
+				}
+			}
+		}
+	}
+	ast.Inspect(r.file, func(n ast.Node) bool {
+		switch n := n.(type) {
+		case *ast.FuncDecl:
+			fieldParams(n.Recv)
+			fieldParams(n.Type.Params)
+			fieldParams(n.Type.Results)
+		case *ast.UnaryExpr:
+			if n.Op == token.AND {
+				if id := addrRoot(n.X); id != nil {
+					if o := local(id); o != nil {
+						r.sharedLocal[o] = true
+					}
+				}
+			}
+		case *ast.FuncLit:
+			fieldParams(n.Type.Params)
+			fieldParams(n.Type.Results)
+			ast.Inspect(n.Body, func(m ast.Node) bool {
+				if id, ok := m.(*ast.Ident); ok {
+					if o := local(id); o != nil && (o.Pos() < n.Pos() || o.Pos() > n.End()) {
+						r.sharedLocal[o] = true
+					}
+				}
+				return true
+			})
+		}
+		return true
+	})
+}
+
 func (r *rw) rewriteFile() ([]byte, error) {
 	f := r.file
+	r.findSharedLocals()
 	// build constraints survive; all other comments are dropped
 	var header []string
 	for _, cg := range f.Comments {
@@ -475,6 +563,25 @@ func (r *rw) tracked(e ast.Expr) bool {
 	return false
 }
 
+// derefTracked: *p is instrumented when p is a local variable that is not a
+// parameter (e.g. the pointer just loaded from an atomic.Pointer, a pooled
+// buffer taken in this function) or is itself shared memory (a field).
+func (r *rw) derefTracked(p ast.Expr) bool {
+	p = unparen(p)
+	if id, ok := p.(*ast.Ident); ok {
+		o := r.info.Uses[id]
+		v, isVar := o.(*types.Var)
+		if !isVar || v.IsField() {
+			return false
+		}
+		if v.Parent() == r.pkg.Scope() {
+			return r.mut[v]
+		}
+		return !r.params[o]
+	}
+	return r.tracked(p)
+}
+
 func (r *rw) wrap(orig, rewritten ast.Expr, c ectx, site ast.Expr) ast.Expr {
 	if !r.instr || c == cAddr {
 		return rewritten
@@ -506,6 +613,9 @@ func (r *rw) expr(e ast.Expr, c ectx) ast.Expr {
 	switch e := e.(type) {
 	case *ast.Ident:
 		if v, ok := r.info.Uses[e].(*types.Var); ok && v.Parent() == r.pkg.Scope() && r.mut[v] && !v.IsField() {
+			return r.wrap(e, e, c, r.site(e))
+		}
+		if o := r.info.Uses[e]; o != nil && r.sharedLocal[o] {
 			return r.wrap(e, e, c, r.site(e))
 		}
 		return e
@@ -583,7 +693,19 @@ func (r *rw) expr(e ast.Expr, c ectx) ast.Expr {
 		e.Max = r.expr(e.Max, cRead)
 		return e
 	case *ast.StarExpr:
+		site := r.site(e)
+		deref := r.instr && c != cAddr && r.derefTracked(e.X)
+		if tv, ok := r.info.Types[e]; !ok || tv.Type == nil || syncType(tv.Type) {
+			deref = false
+		}
 		e.X = r.expr(e.X, cRead)
+		if deref {
+			fn := "Rd"
+			if c == cWrite {
+				fn = "Wr"
+			}
+			return &ast.ParenExpr{X: &ast.StarExpr{X: call(rt(fn), e.X, site)}}
+		}
 		return e
 	case *ast.UnaryExpr:
 		switch e.Op {
